@@ -12,7 +12,7 @@ From SP Require Import Base.Sat Base.Bits Core.Card Core.CardProofs.
 From SP Require Import Logic.Formula.
 From SP Require Import Design.Flat Design.Layout Design.Sem.
 From SP Require Import Encode.Compile Encode.CodeSem Encode.Generic Encode.Blocks Encode.Runs
-     Encode.GridLemmas Encode.LayoutF1 Encode.F1Kinds Encode.F1Cross Encode.F1Deriv Encode.F1Sem
+     Encode.GridLemmas Encode.LayoutF1 Encode.F1Kinds Encode.F1Cross Encode.F1Deriv Encode.F1DerivC Encode.F1Sem
      Encode.F1CrossSem Encode.F1DerivSem Encode.F1InARow Encode.F1Sequential Encode.F1Excl.
 Import ListNotations.
 Close Scope Z_scope.
@@ -31,7 +31,7 @@ Definition Pc (c : fconstraint) (s : asg) : Prop :=
   match c with
   | FCross => Pcross fb s
   | FConsistency => Pcons fb s
-  | FDerivation d deps _ => Pderiv fb d deps s
+  | FDerivation d deps f => Pderiv_any fb d deps f s
   | FAtMost k f l wb => Patmost fb k f l wb s
   | FExactlyK k f l wb => Pexactlyk fb k f l wb s
   | FAtLeast k f l wb => Patleast fb k f l wb s
@@ -62,7 +62,7 @@ Proof.
   intros fresh ct Hfr E. destruct c; cbn [Pc]; try (cbn [constraint_f1] in Hc; discriminate).
   - exact (step_cross fb HF1 HT fresh ct Hfr E).
   - exact (step_consistency fb HF1 HT fresh ct Hfr E).
-  - exact (step_deriv fb HF1 HT _ _ _ Hin fresh ct Hfr E).
+  - exact (step_deriv_any fb HF1 HT _ _ _ Hin fresh ct Hfr E).
   - exact (step_atmost fb HF1 HT _ _ _ _ Hc fresh ct Hfr E).
   - exact (step_atleast fb HF1 HT _ _ _ _ Hc fresh ct Hfr E).
   - exact (step_exactlyk fb HF1 HT _ _ _ _ Hc fresh ct Hfr E).
@@ -76,7 +76,7 @@ Proof.
 Qed.
 
 Lemma GZ_vps : GZ = zn (variables_per_sample fb).
-Proof. unfold F1Kinds.GZ, GN. now rewrite (f1_vps fb HF1). Qed.
+Proof. unfold F1Kinds.GZ. now rewrite (f1_vps fb HF1). Qed.
 
 Theorem compile_is_block b :
   compile fb = COk b ->
@@ -154,11 +154,11 @@ Qed.
 
 (** [onehot] (hence [Pall]) reads only the trial variables *)
 Lemma bit_local s t tr f l :
-  agree_upto GZ s t -> tr < T fb -> isact fb f = true -> l < nlevels fb f ->
+  agree_upto GZ s t -> tr < T fb -> isact fb f = true -> lappl fb f tr = true -> l < nlevels fb f ->
   F1Kinds.bit fb s tr f l = F1Kinds.bit fb t tr f l.
 Proof.
-  intros A Ht Hf Hl. unfold F1Kinds.bit. apply A.
-  pose proof (gvar_range fb HF1 tr f l Ht Hf Hl). pose proof (gvar_le fb HF1 HT tr f l Ht Hf Hl). unfold zn in *. lia.
+  intros A Ht Hf Hap Hl. unfold F1Kinds.bit. apply A.
+  pose proof (gvar_range fb HF1 tr f l Ht Hf Hl Hap). pose proof (gvar_le fb HF1 HT tr f l Ht Hf Hl Hap). unfold zn in *. lia.
 Qed.
 
 Lemma find_ext_in {A} (p p' : A -> bool) (xs : list A) :
@@ -171,7 +171,8 @@ Qed.
 Lemma cell_act_local s t tr f :
   agree_upto GZ s t -> tr < T fb -> isact fb f = true -> cell_act fb s tr f = cell_act fb t tr f.
 Proof.
-  intros A Ht Hf. unfold cell_act. apply find_ext_in. intros l Hl. apply in_seq in Hl.
+  intros A Ht Hf. unfold cell_act. destruct (lappl fb f tr) eqn:Hap; [|reflexivity].
+  apply find_ext_in. intros l Hl. apply in_seq in Hl.
   apply bit_local; auto; lia.
 Qed.
 
@@ -184,15 +185,16 @@ Proof.
   replace (window_args (dec_act fb t) (code_factor fb f fd) (dwin fd w) tr)
     with (window_args (dec_act fb s) (code_factor fb f fd) (dwin fd w) tr); [reflexivity|].
   apply (impl_window_ext fb HF1 HT _ _ f fd w tr W3 Hap Ew). intros d t' Hdd Ht'.
-  pose proof (proj1 (Forall_forall _ _) Hd d Hdd) as Hda. cbv beta in Hda.
+  pose proof (proj1 (Forall_forall _ _) Hd d Hdd) as Hds. cbv beta in Hds.
+  destruct (sact_lappl fb HF1 d t' Hds) as [Hda _].
   rewrite !(dec_act_cell fb _ t' d ltac:(lia) (f1_act_lt fb HF1 d Hda)).
   apply (cell_act_local s t t' d A ltac:(lia) Hda).
 Qed.
 
 Lemma onehot_local s t q : agree_upto GZ s t -> onehot fb s q -> onehot fb t q.
 Proof.
-  intros A (H1 & H2 & H3 & H4 & H5). split; [exact H1|]. split; [exact H2|]. split; [exact H3|]. split.
-  - intros tr f l Ht Hf Hl. rewrite <- (H4 tr f l Ht Hf Hl). symmetry. now apply bit_local.
+  intros A (H1 & H2 & H3 & H4 & H5 & H6). split; [exact H1|]. split; [exact H2|]. split; [exact H3|]. split; [|split; [|exact H6]].
+  - intros tr f l Ht Hf Hap Hl. rewrite <- (H4 tr f l Ht Hf Hap Hl). symmetry. now apply bit_local.
   - intros tr f Ht Hf Hn. rewrite (H5 tr f Ht Hf Hn). now apply cell_impl_local.
 Qed.
 
